@@ -245,3 +245,5 @@ META = {
     'not_decided': 'that a concrete list is the prefix of the unbounded list (follows from determinism + exact pairing)',
     'technique': 'budget-threading and pairing rules + bound-method rebinding (alias) rule + writer/reader path table',
 }
+
+META['explanation'] += ' ' + 'Further: loader bundle (layout, strip, encoding, completeness) for the PRINCE grammar.'
